@@ -661,7 +661,7 @@ impl<W: Write> Writer<W> {
 
 impl<W: Write> Write for Writer<W> {
     fn write(&mut self, buf: &[u8]) -> io::Result<usize> {
-        if self.written + buf.len() as u32 <= self.file_size {
+        if self.written as u64 + buf.len() as u64 <= self.file_size as u64 {
             self.try_write_header()?;
 
             let n = self.inner.write(buf)?;
